@@ -110,9 +110,27 @@ theorem hereDocFd_spec (o : Oracle W) (w : W) (t : FdTable) (content : List Nat)
     · exact .inl ⟨_, rfl, .owned fd _ h2 h3 rfl⟩
     · exact .inr ⟨_, rfl, put_then_close_equiv _ h2⟩
 
+theorem openNormalFile_spec (o : Oracle W) (w : W) (t : FdTable) (op : FileOp) (path : Nat) :
+    PrepSpec t (openNormalFile o w t op path) := by
+  simp only [openNormalFile]
+  cases op <;> simp only
+  · exact openFile_spec ..
+  · split
+    · exact openFileNoclobber_spec ..
+    · exact openFile_spec ..
+  · exact openFile_spec ..
+  · exact openFile_spec ..
+  · exact openFile_spec ..
+
 theorem prepare_spec (o : Oracle W) (w : W) (t : FdTable) (b : Body) : PrepSpec t (prepare o w t b) := by
   unfold prepare
   cases b with
+  | nulPath => exact .inr ⟨_, rfl, Equiv.refl _⟩
+  | fileCs op path =>
+    simp only
+    split
+    · exact openNormalFile_spec ..
+    · exact .inr ⟨_, rfl, Equiv.refl _⟩
   | file op path =>
     simp only [openNormalFile]
     cases op <;> simp only
